@@ -48,6 +48,24 @@ Check(o, ev) ==
   /\ n > 1 => /\ ev.var.c = "fin" /\ DyClose(ev.var.d, var, [n |-> SNat(Mul(ma, rng)), d |-> <<64>>], 36)
               /\ ev.sd.c = "fin" /\ DyClose(DySq(ev.sd.d), var, [n |-> SNat(Mul(ma, rng)), d |-> <<64>>], 34)
 
+\* String(): the textual report.  The recorder splits it into name=value items; every item whose name is one of the statistics
+\* must carry that statistic (to the 6 significant digits of %g, i.e. 2^-16; squares 2^-15), whatever the order of the items.
+\* Unknown names are ignored, so relabelling or adding items is free - but a value under the wrong name is not.
+RepOK(o, it) ==
+  LET n == o.n  nn == FromNat(n)  ma == MaxAbs(o)  rng == SSub(o.mx, o.mn).m  Z == NatRat(<<>>)
+      var == [n |-> SSub(SMul(SNat(nn), o.Q), SMul(o.S, o.S)), d |-> Mul(nn, FromNat(n - 1))]
+      fin == it.v.c = "fin"  d == it.v.d
+  IN CASE it.k = "count"    -> fin /\ DyClose(d, NatRat(nn), Z, 16)
+       [] it.k = "total"    -> n > 0 => (fin /\ DyClose(d, [n |-> o.S, d |-> <<1>>], Z, 16))
+       [] it.k = "min"      -> n > 0 => (fin /\ DyClose(d, [n |-> o.mn, d |-> <<1>>], Z, 16))
+       [] it.k = "max"      -> n > 0 => (fin /\ DyClose(d, [n |-> o.mx, d |-> <<1>>], Z, 16))
+       [] it.k = "mean"     -> n > 0 => (fin /\ DyClose(d, [n |-> o.S, d |-> nn], [n |-> SNat(ma), d |-> Pow2(26)], 16))
+       [] it.k = "rms"      -> n > 0 => (fin /\ d.s >= 0 /\ DyClose(DySq(d), [n |-> o.Q, d |-> nn], Z, 15))
+       [] it.k = "variance" -> n > 1 => (fin /\ DyClose(d, var, [n |-> SNat(Mul(ma, rng)), d |-> Pow2(26)], 16))
+       [] it.k = "stddev"   -> n > 1 => (fin /\ d.s >= 0 /\ DyClose(DySq(d), var, [n |-> SNat(Mul(ma, rng)), d |-> Pow2(25)], 15))
+       [] OTHER -> TRUE
+Report(o, ev) == \A i \in 1..Len(ev.rep) : RepOK(o, ev.rep[i])
+
 Ev == l <= Len(Trace) /\ l' = l + 1
 SMin(x, y) == IF SCmp(x, y) <= 0 THEN x ELSE y
 SMax(x, y) == IF SCmp(x, y) >= 0 THEN x ELSE y
@@ -57,7 +75,7 @@ AddA == /\ Ev /\ Trace[l].op = "Add"
                       mn |-> IF o.n = 0 THEN v ELSE SMin(o.mn, v),
                       mx |-> IF o.n = 0 THEN v ELSE SMax(o.mx, v)]
            IN /\ st' = [st EXCEPT ![a] = o2]
-              /\ Check(o2, Trace[l])
+              /\ Check(o2, Trace[l]) /\ Report(o2, Trace[l])
 Comb == /\ Ev /\ Trace[l].op = "Combine"
         /\ LET a == Trace[l].a  b == Trace[l].b  x == st[a]  y == st[b]
                o2 == IF y.n = 0 THEN x ELSE IF x.n = 0 THEN y ELSE
@@ -66,7 +84,7 @@ Comb == /\ Ev /\ Trace[l].op = "Combine"
            IN /\ a # b
               /\ st' = [st EXCEPT ![a] = o2]
               /\ Trace[l].barg = 1            \* the argument accumulator is left alone
-              /\ Check(o2, Trace[l])
+              /\ Check(o2, Trace[l]) /\ Report(o2, Trace[l])
 \* the driver replaces an accumulator by a fresh one (zero value)
 Clear == /\ Ev /\ Trace[l].op = "Clear" /\ st' = [st EXCEPT ![Trace[l].a] = Zero]
 Reset == /\ Ev /\ Trace[l].op = "Reset" /\ st' = [a \in Acc |-> Zero]
